@@ -138,6 +138,20 @@ def estimate_boundary_on_reference_limit(inp, what=""):
         or all(F(b) <= tmin for _, b in ei)
 
 
+@region("estimate_entirely_outside_reference_span")
+def estimate_entirely_outside_reference_span(inp, what=""):
+    """every estimate interval lies at or before the reference start, or at or after its end: adjust_intervals has
+    nothing to keep and collapses the intervals to zero length"""
+    if inp.get("fault") or inp["entry"] != "evaluate" or "strictly positive" not in what:
+        return False
+    ri, ei = inp["base"]["ref"][0], inp["base"]["est"][0]
+    if not ri or not ei:
+        return False
+    tmax = max(F(b) for _, b in ri)
+    tmin = min(F(a) for a, _ in ri) if inp["task"] == "chord" else Fr(0)
+    return all(F(b) <= tmin for _, b in ei) or all(F(a) >= tmax for a, _ in ei)
+
+
 @region("chord_reference_zero_span")
 def chord_reference_zero_span(inp, what=""):
     """a reference consisting of one interval of zero duration: chord.evaluate fails with TypeError"""
